@@ -156,7 +156,7 @@ func ParseReadWriteMultipleRegistersRequestTCP(data []byte) (*ReadWriteMultipleR
 	var writeData []byte
 	if writeBytesCount > 0 {
 		writeData = make([]byte, writeBytesCount)
-		copy(writeData, data[17:17+writeBytesCount])
+		copy(writeData, data[17:17+int(writeBytesCount)])
 	}
 	return &ReadWriteMultipleRegistersRequestTCP{
 		MBAPHeader: header,
@@ -262,7 +262,7 @@ func ParseReadWriteMultipleRegistersRequestRTU(data []byte) (*ReadWriteMultipleR
 	var writeData []byte
 	if writeBytesCount > 0 {
 		writeData = make([]byte, writeBytesCount)
-		copy(writeData, data[11:11+writeBytesCount])
+		copy(writeData, data[11:11+int(writeBytesCount)])
 	}
 	return &ReadWriteMultipleRegistersRequestRTU{
 		ReadWriteMultipleRegistersRequest: ReadWriteMultipleRegistersRequest{
